@@ -89,6 +89,61 @@ PROPS["C09"] = {
     "assumptions": ["job-id is required 4th only when printer-uri is present (RFC 8011 4.1.5); with job-uri both are emitted in the order job-uri, job-id"],
 }
 
+PROPS["C10"] = {
+    "features": None,
+    "technique": "Lean 4 proof: builder call sequences fold to a summary; buildOp = declarative Spec.request for all 10 operations; differential runs of the real builders",
+    "level_text": "Machine-checked theorems: `build_eq_spec` (for each of the 10 operations, every target, job id, payload and every sequence of builder calls, the built request equals the declaratively specified one: version 1.1, the registry's operation code, request-id 1, an operation group holding exactly charset, language, canonical printer-uri and the attributes the arguments imply, a job group with the extra job attributes last-wins, the payload unmodified, nothing else), `calls_fold_to_summary` (single-valued setters replace, accumulating setters keep everything in order), `new_request_spec`, `new_response_spec`, `op_codes_pin`, `names_pin`. Induction over call lists; no bound on their length. Tie to the code: the real builders and constructors are driven with seeded random call sequences, URIs, job ids and payloads and their requests (canonicalised) and payload bytes are diffed against the model.",
+    "level_note": "Trusts the Lean kernel, the translator (operation codes, attribute names), the correspondence check, Spec/Requests.lean as the reading of RFC 8011 and of the property; the payload is modelled as an opaque byte string carried through; `http::Uri` splitting is a modelled library (see C13).",
+    "design_ref": "DESIGN.md section 9, C10",
+    "trusted_base": CODEC_TB + ["Spec/Requests.lean: declarative request descriptions", "http::Uri accessors (scheme, authority, path, query) as reported by the crate"],
+    "assumptions": ["builder methods not offered by a builder type are not expressible (the harness cannot call them)"],
+}
+
+URI_TB = COMMON_TB + [
+    "http::Uri: the split of a URI string into scheme / raw authority / path / query, `Display`, and `Uri::builder().build()` failing exactly for scheme-without-authority are modelled library behaviour; `Authority::host` and `port_u16` are transcribed (Model/Uri.lean) and compared with the crate's answers on every case",
+    "u16::from_str and integer formatting modelled by parseU16 / natToDec",
+]
+
+PROPS["C13"] = {
+    "features": None,
+    "technique": "Lean 4 proof on the raw-authority model of http::Uri: host has no '@', canonical shape, idempotence, constructor lemma; differential runs with marker tokens",
+    "level_text": "Machine-checked theorems on the model of canonicalize_uri: `host_has_no_at`/`canon_authority_clean` (whatever the authority text, no '@' – hence no user-info – reaches the result), `canon_shape` (scheme ipp, the same host, ':port' exactly when the authority carries a port, the same path, no query), `fallback_only_without_authority` (the copy-the-input branch needs a target with no authority, which has no user-info), `idempotent`, `parse_dec` (port text round trip), `host_of_structured(_v6)` (for [userinfo@]host[:port] the host component is recovered exactly, all three host forms), `ctor_printer_uri` (the request constructor writes render(canon(target))). Unbounded in all string arguments. Tie to the code: seeded structured URIs (4 schemes, 3 host forms, ports, percent-encoded paths, user-info with ':' and '@', queries, all carrying marker tokens) go through the real canonicalize_uri and the real constructors/builders; the crate's host()/port_u16() answers and the result string are diffed against the model; oracles: no marker in the output, output equals ipp://host[:port]path from the generator's ground truth, idempotent.",
+    "level_note": "Partial at the library boundary: how a string is split into components and the builder's re-validation are the http crate's; they are validated, not proved.",
+    "design_ref": "DESIGN.md section 9, C13",
+    "trusted_base": URI_TB,
+    "assumptions": ["authorities are bracket-balanced (validated by the http crate's parser) for idempotence"],
+}
+
+PROPS["C14"] = {
+    "features": None,
+    "technique": "Lean 4 proof: transportUrl = RFC mapping except for port-less ipps (partial theorem + proved counterexample = known finding K1); differential runs through the cfg-guarded hook",
+    "level_text": "Machine-checked theorems: `arms_pin` (translated scheme/port arms), `transport_partial` (for every target except a port-less ipps one the URL is the one RFC 3510/7472 prescribe: ipp->http, ipps->https, explicit port kept, 631 appended outside the brackets of an IPv6 literal, user-info/host/path/query unchanged, other schemes untouched), `ipp_maps_to_http`, `ipps_with_port`, `other_schemes_unchanged`, and `portless_ipps_counterexample`/`portless_ipps_gets_443`: the model provably violates the property for port-less ipps targets exactly as the code does (443 instead of 631). That defect is pinned by the repository's own test test_ipps_uri_no_port and is recorded as known finding K1. Tie to the code: seeded structured URIs through verif_transport_url, result diffed against the model and compared with the RFC's expectation from the generator's ground truth.",
+    "level_note": "The full property is false of the code (K1); the theorem is `_partial` and says exactly where. http::Uri component accessors are a modelled library.",
+    "design_ref": "DESIGN.md section 9, C14",
+    "trusted_base": URI_TB + ["hook: #[cfg(ancwrd1_ipp_rs_verif)] pub fn verif_transport_url wraps the private ipp_uri_to_string"],
+    "assumptions": ["an empty path may be spelled '' or '/' in the URL (RFC 3986 6.2.3)"],
+}
+
+PROPS["C17"] = {
+    "features": None,
+    "technique": "Lean 4 proof: full characterisation (iff) of is_printer_ready on the model; ERROR_STATES pinned by decide; differential runs",
+    "level_text": "Machine-checked theorem `ready_iff`: for every header and every attribute content, the helper returns Err(status) exactly when the status is not successful and otherwise Ok(not stopped and no blocking keyword among the reasons), where the reasons may be a single keyword, any position of a set, or member values of a collection; corollaries `error_iff_not_success`, `stopped_not_ready`, `blocked_not_ready`, `otherwise_ready`; `error_states_pin` (translated ERROR_STATES equals the property's ten words), `names_pin`. Tie to the code: seeded responses (every status class x printer-state variants incl. wrong syntaxes and negative enums x reasons variants with blocking words at random positions, near-miss spellings, collections x one/two/no printer groups) through the real helper, diffed with the model.",
+    "level_note": "Trusts the Lean kernel, the translator (ERROR_STATES, attribute names, stopped state), the correspondence check; enum-as-inner accessors and FromPrimitive::from_i32 are modelled library behaviour.",
+    "design_ref": "DESIGN.md section 9, C17",
+    "trusted_base": CODEC_TB,
+    "assumptions": ["as_enum()/as_keyword() return the payload exactly for that variant", "from_i32 maps negative numbers to None"],
+}
+
+PROPS["C19"] = {
+    "features": None,
+    "technique": "Lean 4 proof: add/groups_of refine an ordered abstract model over all histories (induction); iterator characterised; differential runs",
+    "level_text": "Machine-checked theorems: `add_into_first`, `add_appends_new`, `add_lookup` (one step), `history_from_empty` (any sequence of additions from an empty message yields one group per kind in order of first use, each the last-wins map of its additions), `history_tags` (from any start state, e.g. a parsed message with repeated groups, existing groups keep kind and position and new kinds are appended in order of first use), `groups_of_order`, `traversal` (set elements in order, collection member values in member-name order, any other value once), `traversal_ends`, `traversal_exhausts`. Induction over histories of any length. Tie to the code: seeded histories (empty, builder-like and parser-like starts, 0-12 additions over a small name pool) and seeded values through the real add/groups_of/iterator, diffed with the model.",
+    "level_note": "Trusts the Lean kernel, the correspondence check; HashMap::insert = replace-or-add on a finite map, BTreeMap iteration = key order are modelled library behaviour.",
+    "design_ref": "DESIGN.md section 9, C19",
+    "trusted_base": CODEC_TB,
+    "assumptions": [],
+}
+
 ALL_IDS = ["C%02d" % i for i in range(1, 21)]
 
 NOT_YET = "not claimed in this revision: the theorem/correspondence pair for this property is not built yet (see DESIGN.md section 13)"
